@@ -5,6 +5,9 @@ from . import check, special, pipeline
 
 TYPES18 = [("char", "c", 1), ("int16_t", "s", 2), ("float", "f", 4), ("double", "d", 8), ("blk64", "5blk64", 64)]
 ALIGNS = [8, 16, 32, 64, 4096]
+# get_alignment_offset is also instantiated for element types whose size exceeds their alignment (complex: pointers aligned to the
+# component but not to the element have no aligned element at all)
+GAO_TYPES = TYPES18[:4] + [("std::complex<float>", "cf", 8), ("std::complex<double>", "cd", 16)]
 
 LIBC = r'''
 /* assumed contract of the C library (dependency): posix_memalign either fails (non-zero, *out unspecified) or returns a fresh
@@ -24,6 +27,14 @@ u32 posix_memalign(u8 **out, u64 alignment, u64 size) {
   *out = ghost_block;
   return 0;
 }
+/* malloc: a fresh block aligned to alignof(max_align_t) = 16 and to nothing larger */
+u8 *malloc(u64 size) {
+  if (nondet_u1() || size > ((u64)1 << 40)) return 0;
+  u8 *base = (u8 *)__CPROVER_allocate(size + 32, 0);
+  __CPROVER_assume(base != 0);
+  ghost_block = base + 16; ghost_block_size = size; ghost_live = 1;
+  return ghost_block;
+}
 void free(u8 *p) {
   if (p == 0) return;
   __CPROVER_assert(ghost_live && p == ghost_block, "free: pointer is a live block obtained from posix_memalign (no double free / foreign pointer)");
@@ -40,7 +51,7 @@ def run(tier, seed):
     rep.wd = wd
     S = special.Simple(rep)
     combos = [(t, a) for t in TYPES18 for a in ALIGNS] if tier == "thorough" else [(TYPES18[i], ALIGNS[(i + k) % 5]) for i in range(5) for k in (0, 2)]
-    tu = ["#include <xsimd/xsimd.hpp>", "#include <cstdint>", "struct blk64 { char b[64]; };"]
+    tu = ["#include <xsimd/xsimd.hpp>", "#include <cstdint>", "#include <complex>", "struct blk64 { char b[64]; };"]
     for (ct, mg, sz), al in combos:
         A = "xsimd::aligned_allocator<%s, %d>" % (ct, al)
         tag = "%s_%d" % (ct, al)
@@ -54,8 +65,8 @@ def run(tier, seed):
     archs = [("sse2", "xsimd::sse2", 16), ("avx", "xsimd::avx", 32), ("avx512f", "xsimd::avx512f", 64)]
     for an, ac, al in archs:
         tu.append('extern "C" bool e_isal_%s(void const* p) { return xsimd::is_aligned<%s>(p); }' % (an, ac))
-    for ct, mg, sz in TYPES18[:4]:
-        tu.append('extern "C" size_t e_gao_%s(const %s* p, size_t s, size_t b) { return xsimd::get_alignment_offset(p, s, b); }' % (ct, ct))
+    for ct, mg, sz in GAO_TYPES:
+        tu.append('extern "C" size_t e_gao_%s(const %s* p, size_t s, size_t b) { return xsimd::get_alignment_offset(p, s, b); }' % (mg, ct))
     tu.append('extern "C" size_t e_default_alignment() { return xsimd::default_allocator<float>::alignment; }')
     tu.append('extern "C" size_t e_default_arch_alignment() { return xsimd::default_arch::alignment(); }')
     bc, fnmap, tsec = pipeline.compile_tu(wd, "c18", "\n".join(tu) + "\n", exceptions=True)
@@ -82,9 +93,11 @@ def run(tier, seed):
         c = find("bool xsimd::is_aligned<%s>(" % ac)
         jobs.append({"target": c[0], "out": os.path.join(wd, "j%d.c" % len(jobs))})
         meta.append(("is_aligned", an, al, 0))
-    for ct, mg, sz in TYPES18[:4]:
-        dem_t = {"char": "char", "int16_t": "short", "float": "float", "double": "double"}[ct]
-        c = find("unsigned long xsimd::get_alignment_offset<%s>(" % dem_t)
+    for ct, mg, sz in GAO_TYPES:
+        dem_t = {"char": "char", "int16_t": "short", "float": "float", "double": "double"}.get(ct)
+        c = find("unsigned long xsimd::get_alignment_offset<%s>(" % dem_t) if dem_t else find("unsigned long xsimd::get_alignment_offset<%s" % ct)
+        if len(c) != 1:
+            raise Infra("get_alignment_offset<%s> not found" % ct)
         jobs.append({"target": c[0], "out": os.path.join(wd, "j%d.c" % len(jobs))})
         meta.append(("gao", ct, sz, 0))
     res = pipeline.run_ll2c(bc, jobs, wd, "c18")
